@@ -8,7 +8,7 @@ from .. import diffpipe as D
 FORMATS = ["classic", "bytes", "extended", "extended-bytes", "xasm", "header"]
 RULE = ("every file of the historical corpus (all versions 1.0-3.12 incl. PyPy) plus files freshly compiled by each reference "
         "interpreter (stdlib sample + seeded generated programs) x 6 formats through xdis.disasm.disassemble_file with a separate "
-        "output buffer; monitors: exception at the API boundary, bytes on fd 1 / fd 2 / sys.stdout / sys.stderr during the call, and "
+        "output buffer, on the 3.12 host and (every third batch, plus all always-present feature programs) on each other host 3.8-3.13; monitors: exception at the API boundary, bytes on fd 1 / fd 2 / sys.stdout / sys.stderr during the call, and "
         "for classic/bytes a strict line grammar whose rows must be exactly the non-CACHE instruction stream of Bytecode(co, opc) in "
         "queue order (offset, opname, operand text, '>>' <=> is_jump_target, line column <=> starts_line for bytecode >= 2.3); plus the "
         "pydisasm process (exit status, stderr empty, stdout = in-process listing). one evaluation = one (file, format); distinct = "
@@ -25,7 +25,7 @@ def run(tier, scratch, t0, replay=None):
     # fresh files from every reference interpreter
     batches = D.build_batches(scratch, sorted(K.available_interps()), tier, "C12", n_stdlib=6 if quick else 300,
                               n_gen=10 if quick else 150, batch=40, with_corpus=False, gen_snippets=3 if quick else None,
-                              must_templates=["t_opcode_zoo", "t_opcode_zoo2", "t_ext_edges", "t_py2_raise", "t_strings", "t_try_nest", "t_async", "t_class3", "t_comp", "t_misc",
+                              must_templates=["t_opcode_zoo", "t_opcode_zoo2", "t_ext_edges", "t_ext_jumps", "t_py2_raise", "t_strings", "t_try_nest", "t_async", "t_class3", "t_comp", "t_misc",
                                               "t_shared_frozenset", "t_ints"])
 
     def compile_batch(b):
@@ -43,10 +43,23 @@ def run(tier, scratch, t0, replay=None):
     rng = K.rng_for("C12")
     rng.shuffle(items)
     chunks = list(K.chunks(items, 12 if quick else 40))
+    # host dimension: every third chunk rotates over the other hosts able to import the package, and the feature programs that are
+    # always present (opcode zoo, raise forms, async, ...) are listed on *every* host - a listing routine may use something the
+    # oldest host lacks
+    hosts = [K.MAIN_HOST] * len(chunks)
+    others = [h for h in sorted(K.available_hosts()) if h != K.MAIN_HOST]
+    for i in range(len(chunks)):
+        if i % 3 == 2 and others:
+            hosts[i] = others[(i // 3) % len(others)]
+    must_items = [it for it in items if os.path.basename(it["pyc"]).startswith("m0")]
+    for h in others:
+        for ch in K.chunks(must_items, 30):
+            chunks.append(ch)
+            hosts.append(h)
 
     def job(ci):
         i, chunk = ci
-        return K.run_agent(K.MAIN_HOST, "listings", {"files": chunk, "formats": FORMATS}, scratch.root, "lst%d" % i, timeout=3000)
+        return K.run_agent(hosts[i], "listings", {"files": chunk, "formats": FORMATS}, scratch.root, "lst%d" % i, timeout=3000)
 
     for (i, chunk), (out, err, so, se) in zip(enumerate(chunks), K.pmap(job, list(enumerate(chunks)))):
         if out is None:
@@ -54,6 +67,7 @@ def run(tier, scratch, t0, replay=None):
             continue
         res.merge_agent(out)
         res.count("files", len(chunk))
+        res.count("files_listed_on_host_" + K.vstr(hosts[i]), len(chunk))
 
     # the pydisasm process on a sample
     sample = [it for it in items if it["label"].startswith("corpus/")][:: (9 if quick else 2)] + \
